@@ -508,9 +508,35 @@ func c08StoredBlocks(b *core.B) {
 	}
 }
 
+// c08NilElements: a nil element is an element: the loop variable is bound to it (and tests as
+// falsy), it does not keep the previous element's value or show an outer variable of its name.
+func c08NilElements(b *core.B) {
+	for _, c := range []struct{ t, want string }{
+		{`<%= for (v) in mix { %>[<%= if (v) { %><%= v %><% } else { %>-<% } %>]<% } %>`, "[1][-][3][-]"},
+		{`<% let v = "outer" %><%= for (v) in mix { %>[<%= if (v) { %><%= v %><% } else { %>-<% } %>]<% } %>|<%= v %>`, "[1][-][3][-]|outer"},
+		{`<%= for (k, v) in mix { %>[<%= k %>:<%= v == nil %>]<% } %>`, "[0:false][1:true][2:false][3:true]"},
+		{`<%= for (v) in [nil, 2, nil] { %>[<%= if (v) { %><%= v %><% } else { %>-<% } %>]<% } %>`, "[-][2][-]"},
+		{`<%= for (k, v) in mnil { %>[<%= k %>=<%= if (v) { %><%= v %><% } else { %>-<% } %>]<% } %>`, "[a=-]"},
+	} {
+		if !b.Begin("nil elements: " + c.t) {
+			continue
+		}
+		ctx := c08Ctx()
+		ctx.Set("mix", []interface{}{1, nil, 3, nil})
+		ctx.Set("mnil", map[string]interface{}{"a": nil})
+		res := render(b, c.t, ctx)
+		b.NonTrivialStr(c.t)
+		b.Count("loops-over-nil-elements")
+		if res.Pan == nil && (res.Err != nil || res.Out != c.want) {
+			b.Violate("wrong-loop-output|nil-elements", fmt.Sprintf("want %q, got %s", c.want, res))
+		}
+	}
+}
+
 func c08Run(b *core.B) {
 	if b.Batch == 0 {
 		c08StoredBlocks(b)
+		c08NilElements(b)
 	}
 	r := b.Rng(1)
 	n := 120000
